@@ -25,7 +25,7 @@ type c07Case struct {
 
 // c07Rule describes the enumeration shared by the two commit steps.
 const c07Rule = "alphabets K1 (2-byte keys, deep shared prefixes), KB (2-byte, 4 root children), KB32 (32-byte) x committed base set (quick: 64 subsets x " +
-	"alternating short/long values, KB32 modifications over {untouched,v2,empty} only; thorough: all 729 assignments) x every modification in {untouched,v1,v2,empty}^6 (4096) " +
+	"alternating short/long values, KB32 modifications over {untouched,v2,empty} only; thorough: all 729 assignments, KB32 the 176 patterned bases) x every modification in {untouched,v1,v2,empty}^6 (4096) " +
 	"applied by Update calls (step commits-update: K1; thorough also KB) or by one UpdateBatch call (step commits-batch: KB, KB32), then Commit; " +
 	"distinct = distinct (alphabet, mode, base set, new set); " +
 	"plus (commits-update), for each of the 3^6 sets of K1,K2,KB,KB32: StackTrie OnTrieNode emissions vs the nodes committed by a fresh trie vs the reference nodes"
@@ -75,6 +75,9 @@ func c07Commits(r *mc.R, mode string) {
 				continue // quick: Update calls on K1, UpdateBatch on KB/KB32
 			}
 			for _, b := range bases {
+				if allBases && cfg.a.Name == "KB32" && !c06IsPattern(b) {
+					continue // thorough, 32-byte keys: the 176 patterned bases (values do not change the node structure)
+				}
 				if !allBases && cfg.a.Name == "KB32" && !c06Alternating(b) {
 					continue // 32-byte keys: leaves are hashed nodes whatever the value; quick keeps one value pattern per subset
 				}
@@ -301,7 +304,7 @@ func c07Emissions(r *mc.R) {
 func TestVerif_C07_generations(t *testing.T) {
 	mc.Run(t, "C07", func(r *mc.R) {
 		defer debug.SetGCPercent(debug.SetGCPercent(300))
-		depth := mc.Pick(r, 5, 7)
+		depth := mc.Pick(r, 5, 6)
 		r.Rule("BFS over operation sequences from the empty trie, any number of commit generations within the depth; alphabet = Update(k,v1|v2) x6, " +
 			"Update(k,empty) x6, Delete(k) x6, hash+iterate, getall, copy, commit+reopen, UpdateBatch(all keys = v1 | v2 | empty) (31 ops); state = (model set, " +
 			"committed set, complete white-box fingerprint of the live trie incl. both tracers, store image); at every commit: root, every NodeSet entry " +
